@@ -1093,6 +1093,35 @@ where
     }
 }
 
+/// Instantiates and runs a module written by `compile_to` and stores its value as the module
+/// `name`
+#[cfg(feature = "serde")]
+pub async fn load_precompiled<'vm, D>(
+    thread: &'vm Thread,
+    name: &str,
+    precompiled: Precompiled<D>,
+) -> Result<()>
+where
+    D: crate::serde::Deserializer<'vm> + Send,
+{
+    let ExecuteValue {
+        typ,
+        metadata,
+        value,
+        ..
+    } = {
+        // The snapshot of the database must be gone before the global is stored
+        let mut db = thread.get_database();
+        precompiled
+            .run_expr(&mut ModuleCompiler::new(&mut db), thread, name, "", ())
+            .await?
+    };
+    thread
+        .get_database_mut()
+        .set_global(name, typ, metadata, value.get_value());
+    Ok(())
+}
+
 #[cfg(feature = "serde")]
 pub async fn compile_to<S, T, E>(
     self_: T,
